@@ -4,6 +4,7 @@
                     one, two keys, valid and invalid bearer / direction, every keystream function on up to 2 points.
    MC_C08_guard.cfg guards: one cell, boundary values of algorithm (0..4, 255), bearer (0, 31, 32, 255) and
                     direction (0, 1, 2, 255).
+   MC_C08_fresh.cfg result cells: one payload cell, the caller holds up to 2 returned MACs, writes into them, releases them.
    MC_C08_sim.cfg   (stage B) random walks of the same machine with more values; the walks are replayed on real buffers. *)
 EXTENDS SecurityApi
 AllPats == {<<a, b>> : a \in Sym, b \in Sym}
